@@ -187,6 +187,7 @@ func rulesC16(c *Ctx) {
 	parseFreshRule(c, "C16.parsefresh")
 	regexGapRule(c)
 	rawScanRule(c, "C16.rawscan", tt)
+	regexStartRule(c, tt)
 	n := probeBalance(c, "C16.noleak")
 	c.Floor("C16.noleak", n, 120)
 
@@ -590,4 +591,75 @@ func rawScanRule(c *Ctx, rule string, tt *tokenTable) {
 		}
 	}
 	c.Floor(rule, n, 10)
+}
+
+// regexStartRule: the parser's rune-level test for "a regex follows" against
+// what the lexer does with the same runes.
+func regexStartRule(c *Ctx, tt *tokenTable) {
+	p := c.P
+	c.Rule("C16.regexstart", "parseRegex decides that a regex follows by peeking one rune; for every rune it accepts, the lexer's scan table must not need a second rune to tell another token apart that may legally stand there: `/` followed by `*` is a block comment, so a one-rune test takes a comment in front of an operand for a regex; and what parseRegex skips in front of the operand (consumeWhitespace) must be the skip set of ScanIgnoreWhitespace, comments included")
+	f := p.SSAFunc(p.Method("Parser", "parseRegex"))
+	cw := p.SSAFunc(p.Method("Parser", "consumeWhitespace"))
+	rows, why := p.scanTable()
+	if f == nil || cw == nil || rows == nil {
+		c.Unk("C16.regexstart", "(*Parser).parseRegex", 0, "anchors or scan table not found: "+why)
+		return
+	}
+	// runes compared with the peeked rune on the way to ScanRegex
+	var starts []rune
+	for _, b := range f.Blocks {
+		for _, in := range b.Instrs {
+			bo, ok := in.(*ssa.BinOp)
+			if !ok || (bo.Op != token.EQL && bo.Op != token.NEQ) {
+				continue
+			}
+			call, ok := bo.X.(*ssa.Call)
+			if !ok || call.Call.StaticCallee() == nil || call.Call.StaticCallee().Name() != "peekRune" {
+				continue
+			}
+			if k, ok := bo.Y.(*ssa.Const); ok && k.Value != nil {
+				n, _ := constant.Int64Val(constant.ToInt(k.Value))
+				if n != '$' {
+					starts = append(starts, rune(n))
+				}
+			}
+		}
+	}
+	if len(starts) == 0 {
+		c.Unk("C16.regexstart", "(*Parser).parseRegex: start rune", f.Pos(), "no comparison of the peeked rune with a constant found")
+	}
+	for _, st := range starts {
+		key := fmt.Sprintf("(*Parser).parseRegex: %q taken as the start of a regex", st)
+		var other []string
+		for _, r := range rows {
+			if r.c0 == st && r.twoRunes && r.tok >= 0 && tt.Name[r.tok] == "COMMENT" {
+				other = append(other, fmt.Sprintf("%q%q is a COMMENT", r.c0, r.c1))
+			}
+		}
+		if len(other) > 0 {
+			c.Bad("C16.regexstart", key, f.Pos(), "decided from one rune, but for the lexer "+strings.Join(other, "; ")+": a block comment in front of an operand is scanned as a regex (`SELECT /* c */ v FROM m` is rejected)")
+		} else {
+			c.OK("C16.regexstart", key, f.Pos(), "no other token that may stand there begins with this rune")
+		}
+	}
+	// consumeWhitespace vs the skip set
+	skips := map[string]bool{}
+	for _, b := range cw.Blocks {
+		for _, in := range b.Instrs {
+			if bo, ok := in.(*ssa.BinOp); ok && (bo.Op == token.EQL || bo.Op == token.NEQ) {
+				if k, ok := bo.Y.(*ssa.Const); ok && k.Value != nil && types.Identical(k.Type(), tt.Type) {
+					tv, _ := constant.Int64Val(k.Value)
+					skips[tt.Name[tv]] = true
+				}
+			}
+		}
+	}
+	key := "(*Parser).consumeWhitespace: skips what ScanIgnoreWhitespace skips"
+	if skips["WS"] && !skips["COMMENT"] {
+		c.Bad("C16.regexstart", key, cw.Pos(), "skips a WS token only: a comment between an operator and its regex operand (`b =~ -- c\\n /x/`) is not skipped, and the operand is not recognised")
+	} else if skips["WS"] && skips["COMMENT"] {
+		c.OK("C16.regexstart", key, cw.Pos(), "WS and COMMENT")
+	} else {
+		c.Unk("C16.regexstart", key, cw.Pos(), "skip set not recognised")
+	}
 }
